@@ -100,8 +100,12 @@ impl Recv {
 
         self.stopped = true;
         self.assembler.clear();
-        // Issue flow control credit for unread data
-        let read_credits = self.end - self.assembler.bytes_read();
+        // Issue flow control credit for unread data, unless a reset has already done so
+        let read_credits = if self.is_receiving() {
+            self.end - self.assembler.bytes_read()
+        } else {
+            0
+        };
         // This may send a spurious STOP_SENDING if we've already received all data, but it's a bit
         // fiddly to distinguish that from the case where we've received a FIN but are missing some
         // data that the peer might still be trying to retransmit, in which case a STOP_SENDING is
